@@ -15,7 +15,7 @@ MAX_CONFIRM = 12
 
 MANIFEST_ENTRY = dict(engine="SigNonce", design="§4 C03",
    technique="TLA+ spec SigNonce.tla: TLC exhaustive model checking of the sequence/replay machine (CheckTx and deliver state, all orders of a pool of submissions) and TLC enumeration of the mutation matrix (route x field x mutation); TLC-simulated submission orders and every matrix case executed through the real CheckTx/DeliverTx (full ante chain) of the application; every recorded submission validated by TLC against the property layer (trace validation)",
-   text="TLC proves on the model that with separate CheckTx and deliver sequences, nonce = sequence and increment-on-accept, no transaction is executed twice or with a wrong nonce in any order of valid, replayed, stale, future, badly signed and foreign-chain submissions over several blocks, and that each named way of breaking this is caught. The binding to the code: TLC enumerates the mutation matrix (every signed field, signature component, envelope field, foreign-chain signature and every position of one unauthorised message in 2-3 message Ethereum batches of the same or different senders, VM-level failures and contract creations at every position of a batch followed by the replay of each message, for legacy / access-list / dynamic-fee Ethereum transactions, Cosmos DIRECT and amino-JSON transactions, legacy Web3Tx EIP-712 and EIP-712-over-sign-doc transactions); for every case the harness signs a valid transaction, applies the one mutation without signing again, sends the bytes through the real CheckTx and DeliverTx, then delivers the unmutated transaction (which must be accepted, so the mutation was the reason of the rejection); TLC-simulated and seeded random orders of submissions with replays, interleaved with x/vesting events that re-write the account object (conversion into a vesting account by a third party, merge, funder update, clawback, conversion back), are run the same way. TLC checks every recorded response and the sequences / balances / fee collector before and after against the property layer.",
+   text="TLC proves on the model that with separate CheckTx and deliver sequences, nonce = sequence and increment-on-accept, no transaction is executed twice or with a wrong nonce in any order of valid, replayed, stale, future, badly signed and foreign-chain submissions over several blocks, and that each named way of breaking this is caught. The binding to the code: TLC enumerates the mutation matrix (every signed field, signature component, envelope field, foreign-chain signature and every position of one unauthorised message in 2-3 message Ethereum batches of the same or different senders, VM-level failures and contract creations at every position of a batch followed by the replay of each message, for legacy / access-list / dynamic-fee Ethereum transactions, Cosmos DIRECT and amino-JSON transactions, legacy Web3Tx EIP-712 and EIP-712-over-sign-doc transactions); for every case the harness signs a valid transaction, applies the one mutation without signing again, sends the bytes through the real CheckTx and DeliverTx, then delivers the unmutated transaction (which must be accepted, so the mutation was the reason of the rejection); TLC-simulated and seeded random orders of submissions with replays, interleaved with events that re-write the account object (x/vesting: conversion into a vesting account by a third party, merge, funder update, clawback, conversion back; EVM: a third party's Ethereum transaction pays 1 aISLM to the account, so the state commit stores the account again), are run the same way. All of this runs in the worlds TLC enumerates from SigNonce!Worlds - fee market priced or free (no base fee, minimum gas price 0, transactions without any fee) x signers stored as EthAccount or as plain BaseAccount in the genesis x chain state from genesis or upgraded in place (x/evm parameters put back into the x/params subspace, version map at 3, a scheduled software upgrade whose registered handler runs the store migrations in BeginBlock) - and is judged by the same property layer, which does not mention the world. TLC checks every recorded response and the sequences / balances / fee collector before and after against the property layer.",
    note="Cryptography itself (secp256k1, keccak) is trusted; one chain (haqq_11235-1), so replay onto a chain with the same EIP-155 number and another epoch is out of reach; multi-signer and multisig transactions are not in the matrix; bounds in specs/SigNonce_*.cfg.")
 
 
@@ -70,7 +70,27 @@ def _matrix_cases(wd):
         raise Infra("matrix enumeration failed:\n" + r.out[-3000:])
     cases = r.printed("CASE")
     cases.sort(key=lambda c: (c["route"], c["field"], c["mut"]))
-    return cases, r
+    worlds = r.printed("WORLD")
+    worlds.sort(key=_world_rank)
+    return cases, worlds, r
+
+
+def _world_rank(w):
+    """default world first; then an order in which the first four worlds cover every pair of
+    values of two dimensions (so that the quick tier meets every value of every dimension with
+    every value of every other one)"""
+    bits = (w["fees"] == "free", w["accts"] == "base", w["origin"] == "migrated")
+    order = [(False, False, False), (True, True, False), (True, False, True), (False, True, True),
+             (True, True, True), (True, False, False), (False, True, False), (False, False, True)]
+    return order.index(bits)
+
+
+def _wcfg(seed, w):
+    return {"seed": seed, "fees": w["fees"], "accts": w["accts"], "origin": w["origin"]}
+
+
+def _wname(cfg):
+    return "%s/%s/%s" % (cfg.get("fees") or "priced", cfg.get("accts") or "eth", cfg.get("origin") or "genesis")
 
 
 def run(c):
@@ -91,22 +111,27 @@ def run(c):
         c.add_tlc(d, r)
 
     # 2. spec -> code: the enumerated mutation matrix and simulated submission orders
-    cases, r = _matrix_cases(wd)
+    cases, worlds, r = _matrix_cases(wd)
     c.add_tlc("SigNonce_matrix.cfg", r)
     if len(cases) < 300:
         raise Infra("mutation matrix too small: %d cases" % len(cases))
+    if len(worlds) != 8:
+        raise Infra("scenario space: %d worlds enumerated, 8 expected" % len(worlds))
     nscripts = 300 if quick else 5000
     scripts, r = tlc_scripts(wd, "SigNonce.tla", "SigNonce_sim.cfg", nscripts, 12, c.seed, timeout=1800)
     if len(scripts) < nscripts // 2:
         raise Infra("too few scripts generated: %d" % len(scripts))
-    reps = 2 if quick else 10
-    scenarios = [{"cfg": {"seed": c.seed * 100 + rep}, "cases": cases, "rep": rep} for rep in range(reps)]
+    # the whole matrix in every world of the tier (quick: the four worlds that cover all pairs of
+    # dimension values; thorough: all eight, the default world several times with other contents)
+    reps = 4 if quick else 12
+    mworlds = [worlds[rep % len(worlds)] if rep < len(worlds) else worlds[0] for rep in range(reps)]
+    scenarios = [{"cfg": _wcfg(c.seed * 100 + rep, mworlds[rep]), "cases": cases, "rep": rep} for rep in range(reps)]
     for i, s in enumerate(scripts):
         steps = [{"ev": "commit"} if st["ev"] == "commit" else
                  {"ev": "event", "kind": st["kind"], "target": st["target"]} if st["ev"] == "event" else
                  {"ev": "submit", "mode": st["mode"], "tx": {k: st["tx"][k] for k in ("id", "signer", "nonce", "nm", "route", "q", "qpos") if k in st["tx"]}}
                  for st in s]
-        scenarios.append({"cfg": {"seed": c.seed * 100000 + i}, "steps": steps})
+        scenarios.append({"cfg": _wcfg(c.seed * 100000 + i, worlds[i % len(worlds)]), "steps": steps})
     with open(os.path.join(wd, "scripts.json"), "w") as fh:
         json.dump(scenarios, fh)
     nrandom = 40 if quick else 600
@@ -147,17 +172,31 @@ def run(c):
     c.extra["per_route"] = per_route
     vacuous, by_class, nonce_classes, events, vm_batches = [], {}, {}, {}, {}
     cur = {}
+    world_of, per_world, upgrades = {}, {}, 0
     with open(os.path.join(wd, "trace.ndjson")) as fh:
         for line in fh:
             o = json.loads(line)
+            if o["ev"] == "reset":
+                world_of[o["scn"]] = _wname(o["cfg"])
+                pw = per_world.setdefault(world_of[o["scn"]], {"scenarios": 0, "matrix_runs": 0, "delivered_accepted": 0,
+                                                               "delivered_rejected": 0, "touch_ok_on_account_with_history": 0})
+                pw["scenarios"] += 1
+                pw["matrix_runs"] += o["src"] == "matrix"
+                continue
+            if o["ev"] == "setup" and o["what"].startswith("upgrade-scheduled"):
+                upgrades += 1
             if o["ev"] == "event":
                 k = o["kind"] + ("/ok" if o["ok"] else "/failed")
                 events[k] = events.get(k, 0) + 1
                 if o["ok"] and o["pre"]["seq"][o["target"]] > 0:
                     events["ok-on-account-with-history"] = events.get("ok-on-account-with-history", 0) + 1
+                    if o["kind"] == "touch":
+                        per_world[world_of[o["scn"]]]["touch_ok_on_account_with_history"] += 1
                 continue
             if o["ev"] != "submit":
                 continue
+            if o["mode"] == "deliver" and o["role"] in ("order", "orig"):
+                per_world[world_of[o["scn"]]]["delivered_accepted" if o["ok"] else "delivered_rejected"] += 1
             if o["role"] == "mut" and o["mode"] == "deliver" and o["case"]["field"] == "batch" and "@" in o["case"]["mut"] \
                     and o["case"]["mut"].split("@")[0] in ("revert", "oog", "create"):
                 # authorised batch with a VM-level failure / a creation: it must have been included,
@@ -191,7 +230,22 @@ def run(c):
     c.extra["vacuous_cases"] = vacuous[:20]
     c.extra["account_rewriting_events"] = events
     c.extra["vm_level_batches"] = vm_batches
-    for kind in ("convert", "merge", "funder", "clawback", "back"):
+    c.extra["per_world"] = per_world
+    c.extra["upgrades_run"] = upgrades
+    if len(per_world) != len(worlds):
+        raise Infra("vacuous run: only the worlds %s were visited" % sorted(per_world))
+    for wn, pw in per_world.items():
+        # every world must execute valid transactions (in a free world they carry no fee at all)
+        # and see third-party EVM touches of accounts that have signed before
+        if pw["delivered_accepted"] < 20:
+            raise Infra("vacuous run: world %s accepted only %d valid transactions" % (wn, pw["delivered_accepted"]))
+        if pw["touch_ok_on_account_with_history"] < 3:
+            raise Infra("vacuous run: world %s has too few EVM touches of accounts with history (%s)" % (wn, pw))
+    if sum(pw["matrix_runs"] for wn, pw in per_world.items() if wn.endswith("/migrated")) < 1 or \
+            sum(pw["matrix_runs"] for wn, pw in per_world.items() if wn.startswith("free/")) < 1 or \
+            sum(pw["matrix_runs"] for wn, pw in per_world.items() if "/base/" in wn) < 1:
+        raise Infra("vacuous run: the mutation matrix did not visit a free, a base-account and a migrated world")
+    for kind in ("convert", "merge", "funder", "clawback", "back", "touch"):
         if events.get(kind + "/ok", 0) < 1:
             raise Infra("vacuous run: no successful %s event (%s)" % (kind, events))
     if events.get("ok-on-account-with-history", 0) < 20:
@@ -211,9 +265,14 @@ def run(c):
     with open(os.path.join(wd, "trace.ndjson")) as fh:
         all_lines = fh.readlines()
 
-    def replay_for(v):
+    def replay_for(v, whole=False):
         lines = scenario_lines(os.path.join(wd, "trace.ndjson"), v["scn"])
         head = lines[0]
+        if head["src"] == "matrix" and whole:
+            # the complete matrix run of that world (a case may need the history the earlier cases left)
+            script = {"cfg": head["cfg"], "cases": cases, "rep": scenarios[v["scn"] - 1].get("rep", 0)}
+            return save_replay("C03", "%s-scn%d-whole" % (c.seed, v["scn"]),
+                               {"property": "C03", "driver": "signonce", "script": script, "signature": "(whole matrix run)"})
         if head["src"] == "matrix":
             at = json.loads(all_lines[v["line"] - 1])
             sel = cases
@@ -238,7 +297,7 @@ def run(c):
     for v in sorted(res["viol"], key=lambda v: v["line"]):
         first.setdefault(sig_of(v), v)
     known = {k["signature"] for k in load_known() if k["property"] == "C03" and k.get("status", "known") == "known"}
-    confirmed, skipped = [], []
+    confirmed, skipped, whole_runs = [], [], {}
     for s, v in first.items():
         # a broad breakage shows up under very many classes: the listed findings and the first
         # MAX_CONFIRM others are reproduced alone (and only those are reported), the rest is counted
@@ -246,7 +305,13 @@ def run(c):
             skipped.append(s)
             continue
         path = replay_for(v)
-        if s in _replay(path):
+        shown = _replay(path)
+        if s not in shown and v["scn"] <= len(scenarios) and scenarios[v["scn"] - 1].get("cases"):
+            path = replay_for(v, whole=True)
+            if path not in whole_runs:
+                whole_runs[path] = _replay(path)
+            shown = whole_runs[path]
+        if s in shown:
             confirmed.append(v)
             c.replays[s] = path
         else:
@@ -259,6 +324,7 @@ def run(c):
         "secp256k1 / keccak and the go-ethereum and Cosmos-SDK signing libraries used to build valid transactions are trusted; only what the ante chain does with them is checked",
         "the class of a matrix case (must be rejected / may be accepted with exactly the signed effect) is stated in specs/SigNonce.tla ClassOf from the property statement, not taken from the code",
         "the projection in harness/signonce.go reads sequences (deliver state and CheckTx state), EVM nonces and balances through keepers",
+        "worlds: the in-place upgrade covers the store migrations of x/evm (consensus versions 3 -> current) started by the registered v1.8.2 handler; migrations of other modules and worlds where AllowUnprotectedTxs is switched on by a deliberate parameter decision are not run",
         "a single chain id (haqq_11235-1): replay between chains that share the EIP-155 number is out of reach; single-signer transactions only",
         "exhaustive model checking is bounded by the constants in specs/SigNonce_*.cfg",
     ]
